@@ -16,7 +16,7 @@ EXPLANATION = ("Real Doist.do(real=True) with one probe doer, the `time` module 
 FUNCTIONS = [('hio.base.doing', 'Doist.do'), ('hio.base.doing', 'Doist.__init__'), ('hio.help.timing', 'MonoTimer.latest'),
              ('hio.help.timing', 'MonoTimer.expired'), ('hio.help.timing', 'MonoTimer.remaining'), ('hio.help.timing', 'MonoTimer.__init__'),
              ('hio.help.timing', 'Timer.start'), ('hio.help.timing', 'Timer.restart')]
-BOUNDS = {'quick': dict(cycles=3, budget_s=150, audit_max=4), 'thorough': dict(cycles=3, cycles2=3, budget_s=900, audit_max=6)}      # thorough adds every PAIR of backward-step positions (cycles=4 left a few solver-unknown leaves)
+BOUNDS = {'quick': dict(cycles=3, budget_s=150, audit_max=4), 'thorough': dict(cycles=3, cycles2=2, budget_s=900, audit_max=6, per_path_timeout=80.0)}      # thorough adds every PAIR of backward-step positions (cycles=4 left a few solver-unknown leaves)
 OUTSIDE = ['forward clock jumps (documented as undetectable)', 'IEEE-754 rounding', 'the asyncio loop (ado)', 'more than 1 (quick) / 2 (thorough) backward steps per run',
            'more than `cycles` cycles']
 STUBS = ['FakeClock for time.time/time.sleep seen by hio.base.doing and hio.help.timing (contract in vf/stubs/fakeclock.py)']
